@@ -124,7 +124,9 @@ Record inv (c : cfg) (st : state) : Prop := {
   i_stream3 : stream_done st = true -> ss_streaming st = true;
   i_closer_job : t_job (getT st 1) = [] \/ t_job (getT st 1) = close_sites c;
   i_admit : forall i j a b, i <> j -> t_busy (getT st i) = Some a -> t_busy (getT st j) = Some b ->
-      job_conflict a b = false
+      job_conflict a b = false;
+  i_pend : pend st JStream = true ->
+      ss_streaming st = true /\ stream_done st = false /\ forall i, running_stream (getT st i) = false
 }.
 
 (* table conditions *)
@@ -137,7 +139,7 @@ Definition table_ok (c : cfg) : bool :=
   && forallb (fun s => negb (meth_eqb (s_meth s) MPrepare)) (apply_sites c)
   && (c_load_atomic_pool c || c_pool_rechecks c)
   && (c_load_atomic_engine c || c_apply_checks_stopped c)
-  && c_pool_stop_before_unload c.
+  && c_pool_stop_before_unload c && c_sched_checks_loaded c && c_stream_checks_flag c.
 
 Section Proofs.
 Variable c : cfg.
@@ -153,12 +155,15 @@ Lemma tab_parts :
   /\ (c_load_atomic_pool c || c_pool_rechecks c) = true
   /\ (c_load_atomic_engine c || c_apply_checks_stopped c) = true.
 Proof.
-  pose proof Htab as H. unfold table_ok in H. apply andb_prop in H. destruct H as [H _].
+  pose proof Htab as H. unfold table_ok in H. do 3 (apply andb_prop in H; destruct H as [H _]).
   repeat (apply andb_prop in H; destruct H as [H ?]). tauto.
 Qed.
 
-Lemma tab_stop : c_pool_stop_before_unload c = true.
-Proof. pose proof Htab as H. unfold table_ok in H. apply andb_prop in H. tauto. Qed.
+Lemma tab_stop : c_pool_stop_before_unload c = true /\ c_sched_checks_loaded c = true /\ c_stream_checks_flag c = true.
+Proof.
+  pose proof Htab as H. unfold table_ok in H. do 2 (apply andb_prop in H; destruct H as [H ?]).
+  apply andb_prop in H. tauto.
+Qed.
 
 Lemma getT_set_thr st l j : getT (set_thr st l) j = nth j l idle_thread.
 Proof. reflexivity. Qed.
@@ -270,7 +275,7 @@ Proof.
 Qed.
 
 Ltac inv_destruct H :=
-  destruct H as [Hlen Hjob Hbr HlS HlD Hcnt Hap Hapseen Hpseen Hpool Hclosing Hcloser Hncl Hchk Hs1 Hs2 Hs3 Hcj Hadm].
+  destruct H as [Hlen Hjob Hbr HlS HlD Hcnt Hap Hapseen Hpseen Hpool Hclosing Hcloser Hncl Hchk Hs1 Hs2 Hs3 Hcj Hadm Hpend].
 
 Lemma ref_eqb_eq a b : ref_eqb a b = true <-> a = b.
 Proof. destruct a, b; simpl; split; intros; congruence. Qed.
@@ -347,9 +352,11 @@ Lemma inv_nothr st st' :
       /\ pool_chk st' = false /\ busy_count (thr st) = 0
       /\ (c_load_atomic_engine c = true -> ap_ref st' <> Loaded)
       /\ (c_load_atomic_pool c = true -> pool_ref st' <> Loaded)) ->
+  (pend st' JStream = true ->
+      ss_streaming st' = true /\ stream_done st' = false /\ forall i, running_stream (getT st i) = false) ->
   inv c st'.
 Proof.
-  intros H Et Ed Ec En Hss Hs3' Hc Ha Has Hps Hpl Hcl. inv_destruct H.
+  intros H Et Ed Ec En Hss Hs3' Hc Ha Has Hps Hpl Hcl Hpd. inv_destruct H.
   constructor; unfold getT in *; rewrite ?Et, ?Ed, ?Ec, ?En; auto.
   intros i Hr. destruct Hss as [[E1 E2]|Hno]; [rewrite E1, E2; apply (Hs1 i Hr)|]. rewrite Hno in Hr. discriminate.
 Qed.
@@ -442,7 +449,8 @@ Proof.
   apply andb_prop in G; destruct G as [G1 G2].
   inversion Hs; subst st'; clear Hs. pose proof (no_running_if_done st H G2) as Hn. pose proof H as Hinv. inv_destruct H.
   apply (inv_nothr st _ Hinv); simpl; auto;
-    try solve [intros X; apply (closing_mono st) in X; auto].
+    try solve [intros X; apply (closing_mono st) in X; auto];
+    try solve [intros X; apply Hpend in X; destruct X as (_ & X & _); congruence].
 Qed.
 
 Lemma inv_poolload st st' : inv c st -> step c st APoolLoad = Some st' -> inv c st'.
@@ -541,16 +549,16 @@ Lemma inv_start st i job st' :
   cnt st' = cnt st -> ap_ref st' = ap_ref st -> ap_chk st' = ap_chk st -> pool_ref st' = pool_ref st ->
   pool_chk st' = pool_chk st ->
   (close_ready st' = true -> close_ready st = true) -> (i = 1 \/ close_ready st' = close_ready st) ->
-  ss_streaming st' = ss_streaming st -> stream_done st' = stream_done st ->
+  ss_streaming st' = ss_streaming st -> stream_done st' = stream_done st -> pend st' = pend st ->
   (i = 1 -> closing st) ->
   inv c st'.
 Proof.
-  intros H Hl Hidle Hrole Hjob0 H1 H0 Et Ed Ec En Es Ecn Ear Eac Epr Epc Ecr Ecr2 Ess Esd Hcl1.
+  intros H Hl Hidle Hrole Hjob0 H1 H0 Et Ed Ec En Es Ecn Ear Eac Epr Epc Ecr Ecr2 Ess Esd Epd Hcl1.
   pose proof (not_busy_role st i H Hrole) as Hnb. pose proof H as Hinv. inv_destruct H.
   assert (Hcl : closing st' -> closing st).
   { unfold closing, getT. rewrite Et, Ec. intros [X|[X|X]]; auto.
     rewrite nthU in X; auto. ucase i 1; [apply Hcl1; auto|]. right; left. exact X. }
-  constructor; unfold getT; rewrite ?Et, ?Ed, ?Ec, ?En, ?Es, ?Ecn, ?Ear, ?Eac, ?Epr, ?Epc, ?Ess, ?Esd.
+  constructor; unfold getT; rewrite ?Et, ?Ed, ?Ec, ?En, ?Es, ?Ecn, ?Ear, ?Eac, ?Epr, ?Epc, ?Ess, ?Esd, ?Epd.
   - rewrite upd_length. auto.
   - intros k. rewrite nthU; auto. ucase i k; simpl; auto.
   - intros k. rewrite nthU; auto. ucase i k; simpl; auto; discriminate.
@@ -578,6 +586,8 @@ Proof.
   - auto.
   - rewrite nthU; auto. ucase i 1; simpl; auto; destruct (H1 eq_refl); auto.
   - intros k1 k2 a b Hne. rewrite !nthU; auto. ucase i k1; ucase i k2; simpl; try discriminate; try congruence; apply Hadm; auto.
+  - intros X. destruct (Hpend X) as (A & B & C). repeat split; auto.
+    intros k. rewrite nthU; auto. ucase i k; [reflexivity|apply C].
 Qed.
 
 Lemma inv_apstart st n st' : inv c st -> step c st (AApStart n) = Some st' -> inv c st'.
@@ -638,57 +648,83 @@ Qed.
 Lemma inv_schedule st w j st' : inv c st -> step c st (ASchedule w j) = Some st' -> inv c st'.
 Proof.
   intros H Hs. simpl in Hs. destruct (role_of c w) eqn:Er; try discriminate.
+  destruct tab_stop as (_ & Hsc & _). rewrite Hsc in Hs. simpl in Hs. rewrite orb_false_r in Hs.
   match type of Hs with (if ?g then _ else _) = _ => destruct g eqn:G; [|discriminate] end.
   repeat (apply andb_prop in G; let X := fresh "G" in destruct G as [G X]).
-  apply Nat.ltb_lt in G5.
+  apply Nat.ltb_lt in G3.
   assert (Hnb : t_busy (getT st w) = None) by (destruct (t_busy (getT st w)); [discriminate|auto]).
   assert (w <> 0 /\ w <> 1) as [Hw0 Hw1]. { split; intro; subst; discriminate. }
   pose proof H as Hinv. inv_destruct H.
   assert (Hnc : ~ closing st). { intro X. apply Hclosing in X. destruct X as (_ & _ & _ & X & _). congruence. }
-  assert (Hbc := busy_count_upd w (mkThr (job_sites c j) P0 (Some j)) (thr st) G5).
+  assert (Hbc := busy_count_upd w (mkThr (job_sites c j) P0 (Some j)) (thr st) G3).
   fold (getT st w) in Hbc. unfold is_busy in Hbc at 1. rewrite Hnb in Hbc. simpl in Hbc.
-  assert (Hst' : forall st2, thr st2 = upd w (mkThr (job_sites c j) P0 (Some j)) (thr st) ->
-     destroyed st2 = destroyed st -> closed st2 = closed st -> nclose st2 = nclose st -> stopped st2 = stopped st ->
-     cnt st2 = S (cnt st) -> ap_ref st2 = ap_ref st -> ap_chk st2 = ap_chk st -> pool_ref st2 = pool_ref st ->
-     pool_chk st2 = pool_chk st ->
-     close_ready st2 = close_ready st -> stream_done st2 = stream_done st ->
-     (match j with JStream => ss_streaming st2 = true /\ ss_streaming st = false | _ => ss_streaming st2 = ss_streaming st end) ->
-     inv c st2).
-  { intros st2 Et Ed Ec En Es Ecn Ear Eac Epr Epc Ecr Esd Ess.
-    assert (Hcl : closing st2 -> False).
-    { intro X. apply Hnc. unfold closing, getT in *. rewrite Et, Ec, Ecr in X. rewrite nthU in X; auto.
-      ucase w 1; [congruence|]. exact X. }
-    constructor; unfold getT; rewrite ?Et, ?Ed, ?Ec, ?En, ?Es, ?Ecn, ?Ear, ?Eac, ?Epr, ?Epc, ?Esd.
-    - rewrite upd_length. auto.
-    - intros k. rewrite nthU; auto. ucase w k; simpl; auto. rewrite Er. simpl. apply Forall_forall. auto.
-    - intros k. rewrite nthU; auto. ucase w k; simpl; auto.
-    - apply lock_upd; auto. right; left. apply holds_P0.
-    - apply lock_upd; auto. right; left. apply holds_P0.
-    - rewrite Hcnt. rewrite (Hpool G). simpl. rewrite (Hpool G) in Hcnt. simpl in Hcnt. lia.
-    - rewrite nthU; auto. ucase w 0; [congruence|]. exact Hap.
-    - auto.
-    - auto.
-    - auto.
-    - intro X. exfalso. auto.
-    - rewrite nthU; auto. ucase w 1; [congruence|]. exact Hcloser.
-    - auto.
-    - intros k s r. rewrite nthU; auto. ucase w k; simpl; auto. apply Hchk.
-    - intros k. rewrite nthU; auto. ucase w k.
-      + unfold running_stream. simpl. destruct j; try discriminate. intros _. destruct Ess as [E1 E2]. split; auto.
-        destruct (stream_done st) eqn:E3; auto. specialize (Hs3 eq_refl). congruence.
-      + intros X. destruct (Hs1 k X) as [Y1 Y2]. destruct j; try (rewrite Ess; auto). destruct Ess. congruence.
-    - intros k1 k2 Hne. rewrite !nthU; auto. ucase w k1; ucase w k2; try congruence.
-      + unfold running_stream at 1. simpl. destruct j; try discriminate. intros _ X. destruct (Hs1 _ X). destruct Ess. congruence.
-      + unfold running_stream at 2. simpl. destruct j; try discriminate. intros X _. destruct (Hs1 _ X). destruct Ess. congruence.
-      + apply Hs2; auto.
-    - intros X. apply Hs3 in X. destruct j; try (rewrite Ess; auto). destruct Ess; auto.
-    - rewrite nthU; auto. ucase w 1; [congruence|]. exact Hcj.
-    - intros k1 k2 a b Hne. rewrite !nthU; auto. ucase w k1; ucase w k2; try congruence; simpl.
-      + intros X Y. inversion X; subst a. eapply pool_admits_spec; eauto.
-      + intros X Y. inversion Y; subst b. rewrite job_conflict_sym. eapply pool_admits_spec; eauto.
-      + apply Hadm; auto. }
-  inversion Hs; subst st'; clear Hs. destruct j; apply Hst'; simpl; auto.
-  split; auto. apply negb_true_iff in G0. auto.
+  assert (Hstr : j = JStream -> ss_streaming st = true /\ stream_done st = false /\ forall i, running_stream (getT st i) = false).
+  { intros ->. apply Hpend. exact G. }
+  inversion Hs; subst st'; clear Hs.
+  assert (Hcl : closing (mkState (upd w (mkThr (job_sites c j) P0 (Some j)) (thr st)) (destroyed st) (closed st) (nclose st)
+                    (stopped st) (S (cnt st)) (ap_ref st) (ap_chk st) (pool_ref st) (pool_chk st) (close_ready st)
+                    (ss_streaming st) (stream_done st) (fun k => negb (jk_eqb k j) && pend st k)) -> False).
+  { intro X. apply Hnc. unfold closing, getT in *. simpl in X. rewrite nthU in X; auto.
+    ucase w 1; [congruence|]. exact X. }
+  constructor; unfold getT; simpl.
+  - rewrite upd_length. auto.
+  - intros k. rewrite nthU; auto. ucase w k; simpl; auto. rewrite Er. simpl. apply Forall_forall. auto.
+  - intros k. rewrite nthU; auto. ucase w k; simpl; auto.
+  - apply lock_upd; auto. right; left. apply holds_P0.
+  - apply lock_upd; auto. right; left. apply holds_P0.
+  - rewrite Hcnt. lia.
+  - rewrite nthU; auto. ucase w 0; [congruence|]. exact Hap.
+  - auto.
+  - auto.
+  - auto.
+  - intro X. exfalso. auto.
+  - rewrite nthU; auto. ucase w 1; [congruence|]. exact Hcloser.
+  - auto.
+  - intros k s r. rewrite nthU; auto. ucase w k; simpl; auto. apply Hchk.
+  - intros k. rewrite nthU; auto. ucase w k; [|apply Hs1].
+    unfold running_stream. simpl. destruct j; try discriminate. intros _. destruct (Hstr eq_refl) as (A & B & _). auto.
+  - intros k1 k2 Hne. rewrite !nthU; auto. ucase w k1; ucase w k2; try congruence.
+    + unfold running_stream at 1. simpl. destruct j; try discriminate. intros _ X.
+      destruct (Hstr eq_refl) as (_ & _ & C). rewrite C in X. discriminate.
+    + unfold running_stream at 2. simpl. destruct j; try discriminate. intros X _.
+      destruct (Hstr eq_refl) as (_ & _ & C). rewrite C in X. discriminate.
+    + apply Hs2; auto.
+  - auto.
+  - rewrite nthU; auto. ucase w 1; [congruence|]. exact Hcj.
+  - intros k1 k2 a b Hne. rewrite !nthU; auto. ucase w k1; ucase w k2; try congruence; simpl.
+    + intros X Y. inversion X; subst a. eapply pool_admits_spec; eauto.
+    + intros X Y. inversion Y; subst b. rewrite job_conflict_sym. eapply pool_admits_spec; eauto.
+    + apply Hadm; auto.
+  - destruct j; simpl; try discriminate; intros X; destruct (Hpend X) as (A & B & C); repeat split; auto;
+      intros k; rewrite nthU; auto; (ucase w k; [reflexivity|apply C]).
+Qed.
+
+Lemma inv_dispatch st j st' : inv c st -> step c st (ADispatch j) = Some st' -> inv c st'.
+Proof.
+  intros H Hs. simpl in Hs. destruct tab_stop as (_ & _ & Hsf). rewrite Hsf in Hs. simpl in Hs.
+  match type of Hs with (if ?g then _ else _) = _ => destruct g eqn:G; [|discriminate] end.
+  repeat (apply andb_prop in G; let X := fresh "G" in destruct G as [G X]).
+  inversion Hs; subst st'; clear Hs. pose proof H as Hinv. inv_destruct H.
+  assert (Hnc : ~ closing st). { intro X. apply Hclosing in X. destruct X as (_ & _ & X & _). congruence. }
+  assert (Hno : j = JStream -> ss_streaming st = false /\ stream_done st = false /\ forall i, running_stream (getT st i) = false).
+  { intros ->. apply negb_true_iff in G0. repeat split; auto.
+    - destruct (stream_done st) eqn:E; auto. specialize (Hs3 eq_refl). congruence.
+    - intros i. destruct (running_stream (getT st i)) eqn:E; auto. destruct (Hs1 i E). congruence. }
+  apply (inv_nothr st _ Hinv); simpl; auto;
+    try solve [destruct j; auto; right; apply Hno; auto];
+    try solve [intros X; destruct j; auto];
+    try solve [intro X; exfalso; apply Hnc; revert X; apply closing_mono; auto];
+    try solve [destruct j; simpl; auto; intros _; destruct (Hno eq_refl) as (A & B & C); auto].
+Qed.
+
+Lemma inv_discard st j st' : inv c st -> step c st (ADiscard j) = Some st' -> inv c st'.
+Proof.
+  intros H Hs. simpl in Hs.
+  match type of Hs with (if ?g then _ else _) = _ => destruct g eqn:G; [|discriminate] end.
+  inversion Hs; subst st'; clear Hs. pose proof H as Hinv. inv_destruct H.
+  apply (inv_nothr st _ Hinv); simpl; auto;
+    try solve [intros X; apply (closing_mono st) in X; auto];
+    try solve [intros X; apply andb_prop in X; destruct X as [_ X]; auto].
 Qed.
 
 Lemma inv_completed st w st' : inv c st -> step c st (ACompleted w) = Some st' -> inv c st'.
@@ -733,6 +769,8 @@ Proof.
   - auto.
   - rewrite nthU; auto. ucase w 1; [congruence|]. exact Hcj.
   - intros k1 k2 a b Hne. rewrite !nthU; auto. ucase w k1; ucase w k2; try congruence; try discriminate. apply Hadm; auto.
+  - intros X. destruct (Hpend X) as (A & B & C). repeat split; auto.
+    intros k. rewrite nthU; auto. ucase w k; [reflexivity|apply C].
 Qed.
 
 (* pool shutdown: all references of the pool are dropped at once *)
@@ -758,7 +796,7 @@ Qed.
 
 Lemma inv_poolshutdown st st' : inv c st -> step c st APoolShutdown = Some st' -> inv c st'.
 Proof.
-  intros H Hs. simpl in Hs. rewrite tab_stop in Hs. simpl in Hs.
+  intros H Hs. simpl in Hs. destruct tab_stop as (Hts & _). rewrite Hts in Hs. simpl in Hs.
   match type of Hs with (if ?g then _ else _) = _ => destruct g eqn:G; [|discriminate] end.
   apply andb_prop in G. destruct G as [G1 G2]. apply negb_true_iff in G1.
   inversion Hs; subst st'; clear Hs.
@@ -816,6 +854,8 @@ Proof.
   - auto.
   - exact Hcj.
   - intros a b x y _. rewrite !nth_clear. intros X. destruct (clear_busy_facts (getT st a)) as (_ & _ & C & _). rewrite C in X. discriminate.
+  - intros X. destruct (Hpend X) as (A & B & _). repeat split; auto.
+    intros k. rewrite nth_clear. unfold running_stream. destruct (clear_busy_facts (getT st k)) as (_ & _ & C & _). rewrite C. reflexivity.
 Qed.
 
 (* ---------- one phase step of a thread ---------- *)
@@ -836,6 +876,7 @@ Lemma inv_thr_gen st i s rest t' st' :
   (holdsD t' = holdsD (getT st i) \/ holdsD t' = LNone \/ forall j, j <> i -> compat (holdsD t') (holdsD (getT st j)) = true) ->
   stopped st' = stopped st -> cnt st' = cnt st -> ap_ref st' = ap_ref st -> ap_chk st' = ap_chk st ->
   pool_ref st' = pool_ref st -> pool_chk st' = pool_chk st -> close_ready st' = close_ready st ->
+  pend st' = pend st ->
   (i = 1 -> closer_pred t' (closed st') (destroyed st')) ->
   (i <> 1 -> closed st' = closed st /\ destroyed st' = destroyed st) ->
   nclose st' = b2n (closed st') ->
@@ -846,7 +887,7 @@ Lemma inv_thr_gen st i s rest t' st' :
    \/ (running_stream (getT st i) = true /\ running_stream t' = false /\ ss_streaming st' = ss_streaming st /\ stream_done st' = true)) ->
   inv c st'.
 Proof.
-  intros H Hl Hjb Et Eb Hj' HS HD Es Ecn Ear Eac Epr Epc Ecr Hclo Hnclo Hn Hchk' Hde Hstr.
+  intros H Hl Hjb Et Eb Hj' HS HD Es Ecn Ear Eac Epr Epc Ecr Epd Hclo Hnclo Hn Hchk' Hde Hstr.
   pose proof H as Hinv. inv_destruct H.
   assert (Hidle : is_idle (getT st i) = false) by (unfold is_idle; rewrite Hjb; auto).
   assert (HlS' : forall a b, a <> b ->
@@ -861,7 +902,7 @@ Proof.
   { unfold closing, getT. rewrite Et, Ecr. rewrite nthU; auto. ucase i 1.
     - intros _. right; left. exact Hidle.
     - destruct (Hnclo E) as [E1 E2]. rewrite E1. auto. }
-  constructor; unfold getT; rewrite ?Et, ?Es, ?Ecn, ?Ear, ?Eac, ?Epr, ?Epc.
+  constructor; unfold getT; rewrite ?Et, ?Es, ?Ecn, ?Ear, ?Eac, ?Epr, ?Epc, ?Epd.
   - rewrite upd_length. auto.
   - intros k. rewrite nthU; auto. ucase i k; [|apply Hjob]. rewrite Eb.
     specialize (Hjob i). rewrite Hjb in Hjob. destruct Hj' as [X|[X|X]]; rewrite X; auto.
@@ -902,6 +943,9 @@ Proof.
     destruct close_sites_short as [Y|[s1 Y]]; rewrite Y in X; [discriminate|]. inversion X; subst.
     destruct Hj' as [Z|[Z|Z]]; rewrite Z; auto.
   - intros k1 k2 a b Hne. rewrite !nthU; auto. ucase i k1; ucase i k2; try congruence; rewrite ?Eb; apply Hadm; auto.
+  - intros X. destruct (Hpend X) as (A & B & C).
+    destruct Hstr as [(R1 & R2 & R3)|(R1 & R2 & R3 & R4)]; [|rewrite C in R1; discriminate].
+    rewrite R2, R3. repeat split; auto. intros k. rewrite nthU; auto. ucase i k; [rewrite R1; apply C|apply C].
 Qed.
 
 Lemma role_close_iff i : role_of c i = RClose <-> i = 1.
@@ -1046,6 +1090,8 @@ Proof.
   - eapply inv_poolcheck; eauto.
   - eapply inv_pooloffload; eauto.
   - eapply inv_poolshutdown; eauto.
+  - eapply inv_dispatch; eauto.
+  - eapply inv_discard; eauto.
   - eapply inv_schedule; eauto.
   - eapply inv_completed; eauto.
   - eapply inv_readerstart; eauto.
@@ -1359,7 +1405,8 @@ Definition table_before_fix :=
   ++ filter (fun r => match r with (root, _, _, _, _, _) => negb (String.eqb root "Close") end) lock_table.
 Definition cfg_before_fix (k : kind) (nsnap : nat) : cfg :=
   mkCfg (sites_of_table table_before_fix) k nsnap engine_load_inside_foreach pool_load_inside_foreach
-        apply_checks_stopped pool_rechecks_before_schedule pool_stops_workers_before_unload.
+        apply_checks_stopped pool_rechecks_before_schedule pool_stops_workers_before_unload
+        sched_checks_node_loaded can_stream_checks_streaming.
 
 (* NodeHost stops the shard, the close worker is inside the user Close, a client
    holding a completed ReadIndex reads locally: Lookup runs beside (and after the
@@ -1384,14 +1431,15 @@ Proof. vm_compute. reflexivity. Qed.
 (* the generated configuration with unloadNodes() BEFORE workerStopper.Stop() *)
 Definition cfg_unload_first (k : kind) (nsnap : nat) : cfg :=
   mkCfg gen_sites k nsnap engine_load_inside_foreach pool_load_inside_foreach
-        apply_checks_stopped pool_rechecks_before_schedule false.
+        apply_checks_stopped pool_rechecks_before_schedule false
+        sched_checks_node_loaded can_stream_checks_streaming.
 
 (* a save job is inside SaveSnapshot (resp. a recover job inside RecoverFromSnapshot),
    NodeHost.Close stops the node and the pool drops the busy reference without
    waiting: the counter reaches 0 and the close worker enters Close *)
 Definition unload_first_schedule (j : jobkind) (steps : nat) : list action :=
-  [APoolLoad; APoolIncr; APoolCheck; ASchedule 2 j] ++ repeat (AThr 2) steps
-  ++ [AStop; APoolShutdown; ACloseStart; AThr 1; AThr 1; AThr 1; AThr 1].
+  [AApLoad; AApIncr; AApCheck; ADispatch j; APoolLoad; APoolIncr; APoolCheck; ASchedule 2 j] ++ repeat (AThr 2) steps
+  ++ [AStop; AApOffload; APoolShutdown; ACloseStart; AThr 1; AThr 1; AThr 1; AThr 1].
 
 Theorem unload_before_stop_refuted_proved :
   (let st := run (cfg_unload_first Plain 1) (init 4) (unload_first_schedule JSave 4) in
@@ -1401,5 +1449,34 @@ Theorem unload_before_stop_refuted_proved :
   /\ (* with the generated order the same schedules never reach Close *)
      calls (run (gen_cfg Plain 1) (init 4) (unload_first_schedule JSave 4)) = [(2%nat, MSave)]
   /\ calls (run (gen_cfg Conc 1) (init 4) (unload_first_schedule JRecover 4)) = [(2%nat, MRecover)].
+Proof. vm_compute. repeat split; reflexivity. Qed.
+
+(* ---------- the two pool / node rules about waiting and streaming jobs ---------- *)
+Definition cfg_flip (k : kind) (nsnap : nat) (sched_check stream_flag : bool) : cfg :=
+  mkCfg gen_sites k nsnap engine_load_inside_foreach pool_load_inside_foreach
+        apply_checks_stopped pool_rechecks_before_schedule pool_stops_workers_before_unload
+        sched_check stream_flag.
+
+(* a save request waits in the pool, the replica is stopped and closed, then a worker
+   becomes free: without the test of scheduleWorker the job runs on the closed state machine *)
+Definition stale_job_schedule : list action :=
+  [AApLoad; AApIncr; AApCheck; ADispatch JSave; APoolLoad; APoolIncr;
+   AStop; AApOffload; APoolOffload; ACloseStart] ++ repeat (AThr 1) 7
+  ++ [ASchedule 2 JSave; AThr 2; AThr 2; AThr 2; AThr 2].
+
+(* two stream requests for the same on-disk state machine: without the streaming test of
+   canStream the second one is dispatched while the first is inside PrepareSnapshot *)
+Definition two_streams_schedule : list action :=
+  [AApLoad; AApIncr; AApCheck; APoolLoad; APoolIncr; APoolCheck;
+   ADispatch JStream; ASchedule 2 JStream; AThr 2; AThr 2; AThr 2; AThr 2;
+   ADispatch JStream; ASchedule 3 JStream; AThr 3; AThr 3; AThr 3; AThr 3].
+
+Theorem pool_rules_needed_proved :
+  (let st := run (cfg_flip Conc 1 false true) (init 4) stale_job_schedule in
+   closed st = true /\ destroyed st = true /\ calls st = [(2%nat, MPrepare)])
+  /\ calls (run (gen_cfg Conc 1) (init 4) stale_job_schedule) = []
+  /\ (let st := run (cfg_flip Disk 2 true false) (init 5) two_streams_schedule in
+      calls st = [(2%nat, MPrepare); (3%nat, MPrepare)] /\ overlap core core st = true)
+  /\ calls (run (gen_cfg Disk 2) (init 5) two_streams_schedule) = [(2%nat, MPrepare)].
 Proof. vm_compute. repeat split; reflexivity. Qed.
 
